@@ -632,7 +632,233 @@ func genSyncTab(repo string) (string, error) {
 	sb.WriteString("(* internal/clusterinfo/data.go GetLookupdTopicChannels: the len(errs) rules *)\n")
 	def("clusterinfo_topicchannels_fails_only_when_all_fail", failsOnlyAll && sawAllRule)
 	def("clusterinfo_topicchannels_returns_partial_result", partial)
+
+	// ---- which nsqlookupds GetTopic asks: lookupdHTTPAddrs, the peer list it reads, GetTopic's use of it
+	skipOnlyUnknown, addrFromInfo := httpAddrsShape(p)
+	sb.WriteString("(* nsqd/lookup.go lookupdHTTPAddrs: a peer is left out only when its broadcast address is unknown\n" +
+		"   (whatever the state of its TCP connection); the address comes from the cached peer info *)\n")
+	def("nsqd_httpaddrs_skips_only_unknown_address", skipOnlyUnknown)
+	def("nsqd_httpaddrs_built_from_peer_info", addrFromInfo)
+	sb.WriteString("(* nsqd/lookup.go lookupLoop: the peer list is published (n.lookupPeers.Store) whenever the loop has\n" +
+		"   (re)built it, and a reconfiguration asks for that; nsqd/nsqd.go GetTopic queries exactly lookupdHTTPAddrs() *)\n")
+	def("nsqd_loop_publishes_peer_list", loopPublishesPeers(ll))
+	def("nsqd_gettopic_queries_httpaddrs", getTopicQueriesHTTPAddrs(gt))
 	return sb.String(), nil
+}
+
+// isInfoField: <x>.Info.<field>
+func isInfoField(e ast.Expr, field string) bool {
+	s, ok := e.(*ast.SelectorExpr)
+	if !ok || s.Sel.Name != field {
+		return false
+	}
+	in, ok := s.X.(*ast.SelectorExpr)
+	return ok && in.Sel.Name == "Info"
+}
+
+// isUnknownAddrCond: len(lp.Info.BroadcastAddress) <= 0 | == 0 | < 1, or lp.Info.BroadcastAddress == ""
+func isUnknownAddrCond(p *pkg, e ast.Expr) bool {
+	b, ok := e.(*ast.BinaryExpr)
+	if !ok {
+		return false
+	}
+	if c, ok := b.X.(*ast.CallExpr); ok && callName(c) == "len" && len(c.Args) == 1 && isInfoField(c.Args[0], "BroadcastAddress") {
+		v, err := p.evalInt(b.Y, 0, 0)
+		if err != nil {
+			return false
+		}
+		switch b.Op {
+		case token.LEQ, token.EQL:
+			return v.Sign() == 0
+		case token.LSS:
+			return v.IsInt64() && v.Int64() == 1
+		}
+		return false
+	}
+	if isInfoField(b.X, "BroadcastAddress") && b.Op == token.EQL {
+		l, ok := b.Y.(*ast.BasicLit)
+		return ok && l.Kind == token.STRING && l.Value == `""`
+	}
+	return false
+}
+
+// httpAddrsShape reads NSQD.lookupdHTTPAddrs: the loop over the stored peers must leave a peer
+// out ONLY under the unknown-address test (one `if <that> { continue }`, no other continue /
+// break / return / goto in the loop, the append a direct statement of the loop body), and the
+// address must be JoinHostPort(lp.Info.BroadcastAddress, Itoa(lp.Info.HTTPPort)).
+func httpAddrsShape(p *pkg) (skipOnlyUnknown, addrFromInfo bool) {
+	fn := p.method("NSQD", "lookupdHTTPAddrs")
+	if fn == nil {
+		return false, false
+	}
+	var loop *ast.RangeStmt
+	nloops := 0
+	ast.Inspect(fn.Body, func(n ast.Node) bool {
+		if r, ok := n.(*ast.RangeStmt); ok {
+			nloops++
+			if loop == nil {
+				loop = r
+			}
+		}
+		return true
+	})
+	if loop == nil || nloops != 1 {
+		return false, false
+	}
+	// the loop ranges over the published list (lookupPeers.(...) loaded from n.lookupPeers)
+	if !strings.Contains(nodeText(p, loop.X), "lookupPeers") {
+		return false, false
+	}
+	jumps, skips, appends := 0, 0, 0
+	ast.Inspect(loop.Body, func(n ast.Node) bool {
+		switch n.(type) {
+		case *ast.BranchStmt, *ast.ReturnStmt:
+			jumps++
+		}
+		return true
+	})
+	for _, st := range loop.Body.List {
+		switch x := st.(type) {
+		case *ast.IfStmt:
+			if x.Init == nil && x.Else == nil && len(x.Body.List) == 1 && isUnknownAddrCond(p, x.Cond) {
+				if br, ok := x.Body.List[0].(*ast.BranchStmt); ok && br.Tok == token.CONTINUE {
+					skips++
+				}
+			}
+		case *ast.AssignStmt:
+			if c := assignedCall(st); c != nil && callName(c) == "append" {
+				appends++
+			}
+		}
+	}
+	// statements between the loop and the function's end must not drop entries: only the final return
+	tailOK := false
+	if n := len(fn.Body.List); n > 0 {
+		if r, ok := fn.Body.List[n-1].(*ast.ReturnStmt); ok && len(r.Results) == 1 {
+			if _, ok := r.Results[0].(*ast.Ident); ok && n >= 2 && fn.Body.List[n-2] == ast.Stmt(loop) {
+				tailOK = true
+			}
+		}
+	}
+	skipOnlyUnknown = jumps == skips && skips <= 1 && appends == 1 && tailOK
+	for _, c := range findCalls(loop.Body, func(c *ast.CallExpr) bool { return qualName(c) == "net.JoinHostPort" && len(c.Args) == 2 }) {
+		if !isInfoField(c.Args[0], "BroadcastAddress") {
+			continue
+		}
+		if it, ok := c.Args[1].(*ast.CallExpr); ok && qualName(it) == "strconv.Itoa" && len(it.Args) == 1 && isInfoField(it.Args[0], "HTTPPort") {
+			addrFromInfo = true
+		}
+	}
+	return
+}
+
+// loopPublishesPeers: in lookupLoop, `if connect { ...; n.lookupPeers.Store(lookupPeers); connect = false }`
+// as a direct statement of the for body, and the optsNotificationChan case sets connect = true.
+func loopPublishesPeers(ll *ast.FuncDecl) bool {
+	stores, asks := false, false
+	assignsConnect := func(list []ast.Stmt, val string) bool {
+		for _, s := range list {
+			if a, ok := s.(*ast.AssignStmt); ok && len(a.Lhs) == 1 && len(a.Rhs) == 1 {
+				l, ok1 := a.Lhs[0].(*ast.Ident)
+				r, ok2 := a.Rhs[0].(*ast.Ident)
+				if ok1 && ok2 && l.Name == "connect" && r.Name == val {
+					return true
+				}
+			}
+		}
+		return false
+	}
+	ast.Inspect(ll.Body, func(n ast.Node) bool {
+		switch x := n.(type) {
+		case *ast.ForStmt:
+			for _, s := range x.Body.List {
+				is, ok := s.(*ast.IfStmt)
+				if !ok {
+					continue
+				}
+				if id, ok := is.Cond.(*ast.Ident); !ok || id.Name != "connect" {
+					continue
+				}
+				for _, b := range is.Body.List {
+					es, ok := b.(*ast.ExprStmt)
+					if !ok {
+						continue
+					}
+					c, ok := es.X.(*ast.CallExpr)
+					if !ok || callName(c) != "Store" || len(c.Args) != 1 {
+						continue
+					}
+					f, _ := c.Fun.(*ast.SelectorExpr)
+					if f == nil {
+						continue
+					}
+					recv, _ := f.X.(*ast.SelectorExpr)
+					arg, _ := c.Args[0].(*ast.Ident)
+					if recv != nil && recv.Sel.Name == "lookupPeers" && arg != nil && arg.Name == "lookupPeers" {
+						stores = true
+					}
+				}
+			}
+		case *ast.CommClause:
+			if x.Comm != nil {
+				if es, ok := x.Comm.(*ast.ExprStmt); ok {
+					if u, ok := es.X.(*ast.UnaryExpr); ok && u.Op == token.ARROW {
+						if s, ok := u.X.(*ast.SelectorExpr); ok && s.Sel.Name == "optsNotificationChan" {
+							asks = assignsConnect(x.Body, "true")
+						}
+					}
+				}
+			}
+		}
+		return true
+	})
+	return stores && asks
+}
+
+// getTopicQueriesHTTPAddrs: `x := n.lookupdHTTPAddrs()`, the query is GetLookupdTopicChannels(_, x)
+// and the only test between the two is `len(x) > 0` (the if whose body holds the query).
+func getTopicQueriesHTTPAddrs(gt *ast.FuncDecl) bool {
+	ok := false
+	for i, st := range gt.Body.List {
+		a, isA := st.(*ast.AssignStmt)
+		if !isA || len(a.Lhs) != 1 || len(a.Rhs) != 1 {
+			continue
+		}
+		c, isC := a.Rhs[0].(*ast.CallExpr)
+		v, isV := a.Lhs[0].(*ast.Ident)
+		if !isC || !isV || qualName(c) != "n.lookupdHTTPAddrs" || len(c.Args) != 0 || i+1 >= len(gt.Body.List) {
+			continue
+		}
+		is, isIf := gt.Body.List[i+1].(*ast.IfStmt)
+		if !isIf || is.Init != nil {
+			continue
+		}
+		b, isB := is.Cond.(*ast.BinaryExpr)
+		if !isB || b.Op != token.GTR {
+			continue
+		}
+		lc, isL := b.X.(*ast.CallExpr)
+		if !isL || callName(lc) != "len" || len(lc.Args) != 1 {
+			continue
+		}
+		if id, isId := lc.Args[0].(*ast.Ident); !isId || id.Name != v.Name {
+			continue
+		}
+		if z, isZ := b.Y.(*ast.BasicLit); !isZ || z.Value != "0" {
+			continue
+		}
+		if len(is.Body.List) == 0 {
+			continue
+		}
+		q := assignedCall(is.Body.List[0])
+		if q == nil || callName(q) != "GetLookupdTopicChannels" || len(q.Args) != 2 {
+			continue
+		}
+		if id, isId := q.Args[1].(*ast.Ident); isId && id.Name == v.Name {
+			ok = true
+		}
+	}
+	return ok
 }
 
 // nodeText: the source text of a node (read back from the file).
